@@ -126,3 +126,184 @@ Qed.
 
 Lemma zero_init_disjoint n len j l1 l2 : cleared_by n l1 len j -> cleared_by n l2 len j -> l1 = l2.
 Proof. intros [_ H1] [_ H2]. lia. Qed.
+
+(* ---- MSL, ReadZeroSkipWrite / Restrict on a runtime-sized storage array ----
+   naga emits (msl/internal/codegen/expressions.go, writeRuntimeArrayMaxIndex / buildRZSWBoundsCheck)
+       uint(i) < 1 + (_buffer_sizes.sizeN - offset - elemSize) / stride
+   in C++ unsigned 32-bit arithmetic.  Element i of the array occupies the bytes
+   [offset + i*stride, offset + i*stride + elemSize) of the bound buffer. *)
+Definition msl_rt_count (bytes offset esize stride : Z) : Z := 1 + (bytes - offset - esize) / stride.
+Definition msl_rt_count_u32 (bytes offset esize stride : Z) : Z :=
+  wrap (1 + wrap (wrap (bytes - offset) - esize) / stride).
+Definition elem_in_buffer (bytes offset esize stride i : Z) : Prop := offset + i * stride + esize <= bytes.
+
+(* with the STRIDE in the denominator the guard admits exactly the elements that lie inside the buffer,
+   for all sizes / offsets / element sizes / strides *)
+Lemma msl_rt_guard_exact bytes offset esize stride i :
+  0 < stride -> 0 < esize -> 0 <= offset -> offset + esize <= bytes -> 0 <= i ->
+  (i < msl_rt_count bytes offset esize stride <-> elem_in_buffer bytes offset esize stride i).
+Proof.
+  unfold msl_rt_count, elem_in_buffer. intros Hs He Ho Hb Hi.
+  set (a := bytes - offset - esize). assert (Ha : 0 <= a) by (subst a; lia).
+  pose proof (Z.div_mod a stride ltac:(lia)) as Hd.
+  pose proof (Z.mod_pos_bound a stride Hs) as Hm.
+  assert (Hq : 0 <= a / stride) by (apply Z.div_pos; lia).
+  split; intros H.
+  - assert (i <= a / stride) by lia. assert (i * stride <= (a / stride) * stride) by nia. subst a. nia.
+  - assert (i * stride <= a) by (subst a; lia).
+    destruct (Z_lt_le_dec i (1 + a / stride)) as [|Hge]; [assumption|exfalso].
+    assert ((1 + a / stride) * stride <= i * stride) by nia. nia.
+Qed.
+
+(* the unsigned 32-bit computation is the mathematical one as long as the buffer holds one element
+   (WebGPU's minimum-binding-size validation) and its size is a 32-bit number *)
+Lemma msl_rt_count_u32_exact bytes offset esize stride :
+  0 < stride -> 0 < esize -> 0 <= offset -> offset + esize <= bytes -> bytes < M32 ->
+  msl_rt_count_u32 bytes offset esize stride = msl_rt_count bytes offset esize stride.
+Proof.
+  unfold msl_rt_count_u32, msl_rt_count, wrap, M32. intros Hs He Ho Hb Hlt.
+  rewrite (Z.mod_small (bytes - offset)) by lia.
+  rewrite (Z.mod_small (bytes - offset - esize)) by lia.
+  set (a := bytes - offset - esize). assert (Ha : 0 <= a < 4294967296) by (subst a; lia).
+  assert (Hq : 0 <= a / stride <= a).
+  { split; [apply Z.div_pos; lia|]. apply Z.div_le_upper_bound; [lia|]. nia. }
+  apply Z.mod_small. lia.
+Qed.
+
+(* buffers made of whole strides (the WGSL view): the count is arrayLength = (bytes - offset) / stride *)
+Lemma msl_rt_count_whole_strides bytes offset esize stride :
+  0 < stride -> 0 < esize <= stride -> 0 <= offset -> offset + esize <= bytes -> (bytes - offset) mod stride = 0 ->
+  msl_rt_count bytes offset esize stride = runtime_len bytes offset stride.
+Proof.
+  unfold msl_rt_count, runtime_len. intros Hs He Ho Hb Hm.
+  pose proof (Z.div_mod (bytes - offset) stride ltac:(lia)) as Hd. rewrite Hm in Hd.
+  set (k := (bytes - offset) / stride) in *.
+  assert (Hk : 1 <= k) by nia.
+  replace (bytes - offset - esize) with ((k - 1) * stride + (stride - esize)) by lia.
+  rewrite Z.div_add_l by lia. rewrite (Z.div_small (stride - esize) stride) by lia. lia.
+Qed.
+
+(* Restrict on the same array: min(i, count - 1) is an element inside the buffer, for every 32-bit index *)
+Lemma msl_rt_restrict_in_buffer bytes offset esize stride i :
+  0 < stride -> 0 < esize -> 0 <= offset -> offset + esize <= bytes -> in32 i ->
+  elem_in_buffer bytes offset esize stride (restrict_index i (msl_rt_count bytes offset esize stride)).
+Proof.
+  intros Hs He Ho Hb Hi.
+  assert (Hc : 0 < msl_rt_count bytes offset esize stride).
+  { unfold msl_rt_count. assert (0 <= (bytes - offset - esize) / stride) by (apply Z.div_pos; lia). lia. }
+  pose proof (restrict_in_bounds i _ Hi Hc) as Hr.
+  apply msl_rt_guard_exact; lia.
+Qed.
+
+(* the variant with the ELEMENT SIZE in the denominator (a plausible slip: both numbers are at hand) admits an
+   element outside the buffer as soon as elemSize < stride: array<vec3<f32>>, 48 bytes = 3 elements, index 3 *)
+Definition msl_rt_count_esize_denominator (bytes offset esize stride : Z) : Z := 1 + (bytes - offset - esize) / esize.
+
+Lemma msl_rt_guard_esize_denominator_refuted :
+  exists bytes offset esize stride i,
+    0 < stride /\ 0 < esize <= stride /\ 0 <= offset /\ offset + esize <= bytes /\ (bytes - offset) mod stride = 0 /\ 0 <= i /\
+    i < msl_rt_count_esize_denominator bytes offset esize stride /\ ~ elem_in_buffer bytes offset esize stride i.
+Proof. exists 48, 0, 12, 16, 3. unfold msl_rt_count_esize_denominator, elem_in_buffer. cbn. lia. Qed.
+
+(* the guard relies on the binding holding at least one element: below that the unsigned subtraction wraps
+   and the guard admits (almost) every index *)
+Lemma msl_rt_guard_needs_min_binding_size :
+  exists bytes offset esize stride i,
+    0 < stride /\ 0 < esize <= stride /\ 0 <= offset /\ 0 <= bytes < offset + esize /\ in32 i /\
+    i < msl_rt_count_u32 bytes offset esize stride /\ ~ elem_in_buffer bytes offset esize stride i.
+Proof. exists 0, 0, 4, 4, 5. unfold msl_rt_count_u32, elem_in_buffer, wrap, in32, M32. cbn. lia. Qed.
+
+(* ---- which module-scope variables does an entry point use?  (workgroup zero-initialisation, SPIR-V:
+   collectUsedGlobalVars / collectGlobalVarsFromStatements in spirv/internal/codegen/backend.go)
+   Statements as a tree: sequence, alternative (if / switch arms), loop with body and continuing block,
+   a reference to global g, a call of function f.  [uses n] = g is referenced by code reachable through at most n
+   nested calls; [collect n] = the walk that descends into every sub-statement and every callee. *)
+Inductive cstmt :=
+| CSkip | CRef (g : nat) | CCall (f : nat) | CSeq (a b : cstmt) | CAlt (a b : cstmt) | CLoop (body continuing : cstmt).
+
+Section Collect.
+Variable funcs : nat -> cstmt.
+
+Inductive uses : nat -> cstmt -> nat -> Prop :=
+| u_ref n g : uses n (CRef g) g
+| u_call n f g : uses n (funcs f) g -> uses (S n) (CCall f) g
+| u_seq_l n a b g : uses n a g -> uses n (CSeq a b) g
+| u_seq_r n a b g : uses n b g -> uses n (CSeq a b) g
+| u_alt_l n a b g : uses n a g -> uses n (CAlt a b) g
+| u_alt_r n a b g : uses n b g -> uses n (CAlt a b) g
+| u_loop_body n a b g : uses n a g -> uses n (CLoop a b) g
+| u_loop_continuing n a b g : uses n b g -> uses n (CLoop a b) g.
+
+Fixpoint collect_stmt (rec : cstmt -> list nat) (s : cstmt) : list nat :=
+  match s with
+  | CSkip => []
+  | CRef g => [g]
+  | CCall f => rec (funcs f)
+  | CSeq a b | CAlt a b | CLoop a b => collect_stmt rec a ++ collect_stmt rec b
+  end.
+
+Fixpoint collect (n : nat) (s : cstmt) : list nat :=
+  match n with
+  | O => collect_stmt (fun _ => []) s
+  | S n' => collect_stmt (collect n') s
+  end.
+
+(* the walk that forgets the continuing block *)
+Fixpoint collect_stmt_no_continuing (rec : cstmt -> list nat) (s : cstmt) : list nat :=
+  match s with
+  | CSkip => []
+  | CRef g => [g]
+  | CCall f => rec (funcs f)
+  | CSeq a b | CAlt a b => collect_stmt_no_continuing rec a ++ collect_stmt_no_continuing rec b
+  | CLoop a _ => collect_stmt_no_continuing rec a
+  end.
+
+Fixpoint collect_no_continuing (n : nat) (s : cstmt) : list nat :=
+  match n with
+  | O => collect_stmt_no_continuing (fun _ => []) s
+  | S n' => collect_stmt_no_continuing (collect_no_continuing n') s
+  end.
+
+Lemma collect_stmt_complete (rec : cstmt -> list nat) n :
+  (forall f g, uses n (funcs f) g -> In g (rec (funcs f))) ->
+  forall s g, uses (S n) s g -> In g (collect_stmt rec s).
+Proof.
+  intros Hrec s. induction s as [| g0 | f | a IHa b IHb | a IHa b IHb | a IHa b IHb]; intros g Hu; cbn [collect_stmt].
+  - inversion Hu.
+  - inversion Hu; subst. left. reflexivity.
+  - inversion Hu; subst. apply Hrec. assumption.
+  - apply in_or_app. inversion Hu; subst; [left; apply IHa | right; apply IHb]; auto.
+  - apply in_or_app. inversion Hu; subst; [left; apply IHa | right; apply IHb]; auto.
+  - apply in_or_app. inversion Hu; subst; [left; apply IHa | right; apply IHb]; auto.
+Qed.
+
+Lemma collect_zero_complete s g : uses O s g -> In g (collect O s).
+Proof.
+  induction s as [| g0 | f | a IHa b IHb | a IHa b IHb | a IHa b IHb]; intros Hu; cbn [collect collect_stmt].
+  - inversion Hu.
+  - inversion Hu; subst. left. reflexivity.
+  - inversion Hu.
+  - apply in_or_app. inversion Hu; subst; [left; apply IHa | right; apply IHb]; assumption.
+  - apply in_or_app. inversion Hu; subst; [left; apply IHa | right; apply IHb]; assumption.
+  - apply in_or_app. inversion Hu; subst; [left; apply IHa | right; apply IHb]; assumption.
+Qed.
+
+(* every variable used through at most n nested calls is collected: in particular the ones referenced only from a
+   function called only from a continuing block *)
+Theorem collect_complete : forall n s g, uses n s g -> In g (collect n s).
+Proof.
+  induction n as [|n IH]; intros s g Hu; [apply collect_zero_complete; assumption|].
+  cbn [collect]. apply (collect_stmt_complete (collect n) n); [| assumption].
+  intros f g' H. apply IH. assumption.
+Qed.
+End Collect.
+
+(* the walk without the continuing block misses a variable: `loop { ... continuing { i = advance(i); } }`
+   with advance() the only user of global 7 *)
+Lemma collect_no_continuing_refuted :
+  exists funcs n s g, uses funcs n s g /\ ~ In g (collect_no_continuing funcs n s).
+Proof.
+  exists (fun _ => CRef 7%nat), 1%nat, (CLoop CSkip (CCall 0%nat)), 7%nat. split.
+  - apply u_loop_continuing. apply u_call. apply u_ref.
+  - cbn. intros H. exact H.
+Qed.
